@@ -251,7 +251,15 @@ def generate(seed, tier):
         provs.append({"name": "Res%d" % i, "order": r.choice((0, 0, 1, -1, 5)),
                       "attrs": {r.choice(("service.name", "team", "zone", "telemetry.sdk.name")): "p%d" % i,
                                 "only%d" % i: i}})
-    return {"arm": "wire", "env_attrs": r.choice((None, "team=env,zone=eu%20west", "service.name=fromattrs", "bad,team=x")),
+    # many attributes (a cloud / k8s resource detector; a long DEEP_RESOURCE_ATTRIBUTES): nothing is squeezed out
+    if provs and r.random() < 0.3:
+        for p_ in provs:
+            if r.random() < 0.6:
+                p_["attrs"].update({"bulk.%s.%d" % (p_["name"], j): j for j in range(r.choice((40, 70, 130, 300)))})
+    env_attrs = r.choice((None, "team=env,zone=eu%20west", "service.name=fromattrs", "bad,team=x"))
+    if r.random() < 0.1:
+        env_attrs = ",".join(["team=env"] + ["env.k%d=v%d" % (j, j) for j in range(r.choice((60, 140, 260)))])
+    return {"arm": "wire", "env_attrs": env_attrs,
             "env_service": r.choice((None, None, "envsvc")), "provs": provs, "knobs": knobs}
 
 
@@ -407,6 +415,11 @@ def _seq(s, ch):
             "digest": "seq-%s" % common.__name__ + repr((len(viol), s["ops"]))[:200], "key": key, "order": ""}
 
 
+def h_(text):
+    import hashlib
+    return hashlib.sha1(text.encode()).hexdigest()[:16]
+
+
 def _wire(s, ch):
     viol = []
     info = {"override": False}
@@ -467,7 +480,7 @@ def _wire(s, ch):
             for key_, val in want.items():
                 if key_ not in res:
                     viol.append(V("resource-key-missing:%s" % ("sdk-or-service" if key_.startswith(("telemetry", "service")) else "source"),
-                                  "%s lacks %r (%s): %r" % (where, key_, val, res)))
+                                  "%s lacks %r (%s); it has %d keys: %r" % (where, key_, val, len(res), sorted(res)[:12])))
                 elif val is not None and res[key_] != val:
                     viol.append(V("resource-precedence", "%s: %s=%r, the latest source says %r; sources env_attrs=%r env_service=%r "
                                   "providers (in order) %s" % (where, key_, res[key_], val, s["env_attrs"], s["env_service"],
@@ -485,7 +498,8 @@ def _wire(s, ch):
                 os.environ.pop(k_, None)
             else:
                 os.environ[k_] = v_
-    key = repr((s["env_attrs"], s["env_service"], s["provs"])) if info["override"] else None
+    key = h_(repr((s["env_attrs"], s["env_service"], s["provs"]))) if info["override"] or len(s["env_attrs"] or "") > 200 or any(
+        len(p_["attrs"]) > 10 for p_ in s["provs"]) else None
     seen, vs = set(), []
     for v in viol:
         if v["sig"] not in seen:
